@@ -1,10 +1,11 @@
 import argparse, json, os, sys, traceback
 from common import *
-import fam_map, fam_diff
+import fam_map, fam_diff, fam_cursor
 
 FAMILIES = {}
 FAMILIES.update({p: fam_map.check for p in fam_map.PROPS})
 FAMILIES.update({p: fam_diff.check for p in fam_diff.PROPS})
+FAMILIES.update({p: fam_cursor.check for p in fam_cursor.PROPS})
 
 
 def main():
